@@ -371,8 +371,9 @@ func join(a, b context, node parse.Node, nodeName string) context {
 	}
 
 	// A name is open, or was split, after the branch node if it is in any branch.
-	if len(b.foreign) > len(a.foreign) {
-		a.foreign = b.foreign
+	if a.foreign != b.foreign {
+		// Which elements are open is not known any more: a full list stays as it is.
+		a.foreign = strings.Repeat("?", maxForeign)
 	}
 	a.foreignTag = a.foreignTag || b.foreignTag
 	a.nameOpen = a.nameOpen || b.nameOpen
@@ -1397,15 +1398,16 @@ func (e *escaper) escapeText(c context, n *parse.TextNode) context {
 						if k := strings.LastIndex(c1.foreign, name[1:2]); k >= 0 && len(c1.foreign) < maxForeign {
 							c1.foreign = c1.foreign[:k]
 						}
-					case foreignBreakout[name]:
-						// A start tag that ends foreign content for an HTML parser.
-						c1.foreign = ""
 					}
+					// (Start tags such as <p> or <img> end foreign content for an HTML parser, but
+					// not inside foreignObject, desc, title or the MathML text elements, where they
+					// are ordinary: the record is kept.)
 				}
 			}
 			if c.foreignTag && isInTag(c.state) && !isInTag(c1.state) {
 				// The start tag of the svg or math element ends: "/>" closes the element at once.
-				if i1 >= 2 && s[i1-1] == '>' && s[i1-2] == '/' && c1.foreign != "" && len(c1.foreign) < maxForeign {
+				// (Not in an unquoted attribute value, of which the "/" would be a part.)
+				if c.state == stateTag && i1-2 >= i && s[i1-1] == '>' && s[i1-2] == '/' && c1.foreign != "" && len(c1.foreign) < maxForeign {
 					c1.foreign = c1.foreign[:len(c1.foreign)-1]
 				}
 				c1.foreignTag = false
@@ -1488,12 +1490,6 @@ func openForeign(list, name string) string {
 	}
 	return list
 }
-
-// foreignBreakout holds the start tags that end foreign content for an HTML parser (HTML
-// standard 13.2.6.5; font only with a color, face or size attribute, which is left out).
-var foreignBreakout = map[string]bool{"b": true, "big": true, "blockquote": true, "body": true, "br": true, "center": true, "code": true, "dd": true, "div": true, "dl": true, "dt": true, "em": true, "embed": true,
-	"h1": true, "h2": true, "h3": true, "h4": true, "h5": true, "h6": true, "head": true, "hr": true, "i": true, "img": true, "li": true, "listing": true, "menu": true, "meta": true, "nobr": true, "ol": true,
-	"p": true, "pre": true, "ruby": true, "s": true, "small": true, "span": true, "strong": true, "strike": true, "sub": true, "sup": true, "table": true, "tt": true, "u": true, "ul": true, "var": true}
 
 // openEndTag returns the end of the text s, in lower case, if c is the body of a script or
 // style element and that end is the beginning of the element's end tag, and "" otherwise.
